@@ -6,6 +6,7 @@ import (
 	iec "github.com/nspcc-dev/neofs-node/internal/ec"
 	iobject "github.com/nspcc-dev/neofs-node/internal/object"
 	"github.com/nspcc-dev/neofs-node/pkg/local_object_storage/util/logicerr"
+	"github.com/nspcc-dev/neofs-node/pkg/util/verifhook"
 	apistatus "github.com/nspcc-dev/neofs-sdk-go/client/status"
 	"github.com/nspcc-dev/neofs-sdk-go/object"
 	oid "github.com/nspcc-dev/neofs-sdk-go/object/id"
@@ -101,6 +102,7 @@ func (s *Shard) Head(addr oid.Address, raw bool) (*object.Object, error) {
 		if err == nil {
 			return obj, err
 		}
+		verifhook.Point("shard.get.afterCacheMiss")
 	}
 
 	return s.blobStor.Head(addr)
@@ -159,6 +161,7 @@ func (s *Shard) ReadHeader(addr oid.Address, raw bool, buf []byte) (int, error) 
 		if err == nil {
 			return n, nil
 		}
+		verifhook.Point("shard.get.afterCacheMiss")
 	}
 
 	return s.blobStor.ReadHeader(addr, buf)
